@@ -219,5 +219,9 @@ async fn renew_certificate(
 			certificate.warn(&e.message);
 		}
 	};
+	if !is_success {
+		// Do not hammer the endpoint: wait before the next attempt.
+		sleep(Duration::from_secs(backoff[0])).await;
+	}
 	(certificate, account_s.clone(), endpoint_s.clone())
 }
